@@ -1,44 +1,35 @@
-(* C11 — the agreement theorems with CHAIN-LOCAL hypotheses: instead of "one __prefix__ for all classes"
-   and "no deferring attribute has a local value" it suffices that, along the chain of the attribute
-   in question, no hop holds a local value and every hop after the first either does not use the
-   '*' rule or belongs to a class with the origin's __prefix__. *)
+(* C11 — the agreement theorems with CHAIN-LOCAL hypotheses: instead of "no deferring attribute of the pool
+   has a local value" it suffices that, along the chain of the attribute in question, no hop holds a local
+   value.  Classes may have any __prefix__ (since 2e526b5 setattr_delegate names every link from the object
+   that owns it, as getattr_delegate does). *)
 From Coq Require Import ZArith List Bool Arith Lia.
 From TV Require Import Common.Harness C11.Model C11.Law C11.Proofs C11.Invariants.
 Import ListNotations.
 Open Scope Z_scope.
 
-Definition hop_name_ok (st : state) (origin cur : oid) (r : rule) : Prop :=
-  match r with RClass => c_prefix (cls_of st cur) = c_prefix (cls_of st origin) | _ => True end.
-
-Inductive good_chain (st : state) (origin : oid) : oid -> name -> Prop :=
+Inductive good_chain (st : state) : oid -> name -> Prop :=
 | GC_end cur dn :
-    (forall d r m, find_trait st cur dn <> Some (Deleg d r m)) -> good_chain st origin cur dn
+    (forall d r m, find_trait st cur dn <> Some (Deleg d r m)) -> good_chain st cur dn
 | GC_hop cur dn d r m p :
     find_trait st cur dn = Some (Deleg d r m) ->
     find_trait st cur d = Some Link ->
     dict_get st cur dn = None ->
-    hop_name_ok st origin cur r ->
     rd st cur d = Ok (VObj p) ->
-    good_chain st origin p (attr_name r (c_prefix (cls_of st cur)) dn) ->
-    good_chain st origin cur dn.
+    good_chain st p (attr_name r (c_prefix (cls_of st cur)) dn) ->
+    good_chain st cur dn.
 
-Lemma attr_name_hop st origin cur r dn :
-  hop_name_ok st origin cur r ->
-  attr_name r (c_prefix (cls_of st origin)) dn = attr_name r (c_prefix (cls_of st cur)) dn.
-Proof. destruct r; cbn; intros H; try reflexivity. rewrite H. reflexivity. Qed.
-
-Theorem walk_read_agree_local st origin : forall f cur d r m dn p t tr,
-  good_chain st origin cur dn ->
+Theorem walk_read_agree_local st : forall f cur d r m dn p t tr,
+  good_chain st cur dn ->
   find_trait st cur dn = Some (Deleg d r m) ->
-  walk f st origin cur d r dn = Ok (p, t, tr) ->
+  walk f st cur d r dn = Ok (p, t, tr) ->
   (forall d' r' m', find_trait st p t <> Some (Deleg d' r' m')) /\
   forall g, read (f + S g) st cur dn = read (S g) st p t.
 Proof.
   induction f as [|f IH]; intros cur d r m dn p t tr Hg Htr Hw; [discriminate|].
-  inversion Hg as [? ? Hend|? ? d0 r0 m0 p1 Htr0 Hd Hloc Hname Hrd Hrest]; subst.
+  inversion Hg as [? ? Hend|? ? d0 r0 m0 p1 Htr0 Hd Hloc Hrd Hrest]; subst.
   { exfalso. eapply Hend. exact Htr. }
   rewrite Htr in Htr0. injection Htr0 as <- <- <-.
-  cbn [walk] in Hw. rewrite Hrd in Hw. rewrite (attr_name_hop _ _ _ _ _ Hname) in Hw.
+  cbn [walk] in Hw. rewrite Hrd in Hw.
   set (dn' := attr_name r (c_prefix (cls_of st cur)) dn) in *.
   assert (forall g, read (S f + S g) st cur dn = read (f + S g) st p1 dn') as Hstep.
   { intros g. change (S f + S g)%nat with (S (f + S g)). rewrite read_unfold.
@@ -58,40 +49,38 @@ Proof.
 Qed.
 
 (* a store at a plain node leaves every good chain good *)
-Lemma good_chain_dict_set st origin p t k dflt w :
+Lemma good_chain_dict_set st p t k dflt w :
   find_trait st p t = Some (Normal k dflt) ->
-  forall cur dn, good_chain st origin cur dn -> good_chain (dict_set st p t w) origin cur dn.
+  forall cur dn, good_chain st cur dn -> good_chain (dict_set st p t w) cur dn.
 Proof.
-  intros Hp cur dn Hg. induction Hg as [cur dn Hend|cur dn d r m p1 Htr Hd Hloc Hname Hrd Hrest IH].
+  intros Hp cur dn Hg. induction Hg as [cur dn Hend|cur dn d r m p1 Htr Hd Hloc Hrd Hrest IH].
   - apply GC_end. intros d r m. rewrite find_trait_dict_set. apply Hend.
   - eapply GC_hop with (p := p1).
     + rewrite find_trait_dict_set. exact Htr.
     + rewrite find_trait_dict_set. exact Hd.
     + rewrite dict_get_dict_set_other; [exact Hloc|].
       apply (node_neq_by_trait st). rewrite Htr, Hp. discriminate.
-    + unfold hop_name_ok in *. destruct r; try exact I. rewrite !cls_of_dict_set. exact Hname.
     + rewrite (rd_dict_set_link st p t k dflt w cur d Hp Hd). exact Hrd.
     + rewrite cls_of_dict_set. exact IH.
 Qed.
 
-Lemma walk_dict_set_local st origin p t k dflt w :
+Lemma walk_dict_set_local st p t k dflt w :
   find_trait st p t = Some (Normal k dflt) ->
-  forall f cur d r m dn, good_chain st origin cur dn -> find_trait st cur dn = Some (Deleg d r m) ->
-    walk f (dict_set st p t w) origin cur d r dn = walk f st origin cur d r dn.
+  forall f cur d r m dn, good_chain st cur dn -> find_trait st cur dn = Some (Deleg d r m) ->
+    walk f (dict_set st p t w) cur d r dn = walk f st cur d r dn.
 Proof.
   intros Hp. induction f as [|f IH]; intros cur d r m dn Hg Htr; [reflexivity|].
-  inversion Hg as [? ? Hend|? ? d0 r0 m0 p1 Htr0 Hd Hloc Hname Hrd Hrest]; subst.
+  inversion Hg as [? ? Hend|? ? d0 r0 m0 p1 Htr0 Hd Hloc Hrd Hrest]; subst.
   { exfalso. eapply Hend. exact Htr. }
   rewrite Htr in Htr0. injection Htr0 as <- <- <-.
   cbn [walk]. rewrite (rd_dict_set_link st p t k dflt w cur d Hp Hd). rewrite Hrd.
   rewrite cls_of_dict_set, find_trait_dict_set.
-  rewrite (attr_name_hop _ _ _ _ _ Hname).
   destruct (find_trait st p1 _) as [[| |d' r' m'|]|] eqn:E; try reflexivity.
   eapply IH; [exact Hrest|exact E].
 Qed.
 
-Lemma walk_returns_class_trait st origin : forall f cur d r dn p t k dflt,
-  walk f st origin cur d r dn = Ok (p, t, Normal k dflt) -> find_trait st p t = Some (Normal k dflt).
+Lemma walk_returns_class_trait st : forall f cur d r dn p t k dflt,
+  walk f st cur d r dn = Ok (p, t, Normal k dflt) -> find_trait st p t = Some (Normal k dflt).
 Proof.
   induction f as [|f IH]; intros cur d r dn p t k dflt Hw; [discriminate|].
   cbn [walk] in Hw. destruct (rd st cur d) as [[z| | |p1]|e]; try discriminate.
@@ -101,9 +90,9 @@ Proof.
 Qed.
 
 Theorem delegatesto_write_then_read_local st o n d r p t k dflt v w :
-  good_chain st o o n ->
+  good_chain st o n ->
   find_trait st o n = Some (Deleg d r true) ->
-  walk 100 st o o d r n = Ok (p, t, Normal k dflt) ->
+  walk 100 st o d r n = Ok (p, t, Normal k dflt) ->
   validate k v = Some w -> (p < length (objs st))%nat ->
   let st' := fst (fst (set_attr st o n v)) in
   st' = dict_set st p t w /\ forall g, read (100 + S g) st' o n = Ok w.
@@ -111,12 +100,12 @@ Proof.
   intros Hg Htr Hw Hv Hp st'.
   destruct (delegatesto_store st o n d r p t (Normal k dflt) v w Htr Hw Hv) as [Hst _].
   subst st'. rewrite Hst. split; [reflexivity|].
-  pose proof (walk_returns_class_trait _ _ _ _ _ _ _ _ _ _ _ Hw) as Hpt.
+  pose proof (walk_returns_class_trait _ _ _ _ _ _ _ _ _ _ Hw) as Hpt.
   set (st1 := dict_set st p t w).
-  assert (good_chain st1 o o n) as Hg1 by (apply (good_chain_dict_set st o p t k dflt w Hpt); exact Hg).
-  assert (walk 100 st1 o o d r n = Ok (p, t, Normal k dflt)) as Hw1.
+  assert (good_chain st1 o n) as Hg1 by (apply (good_chain_dict_set st p t k dflt w Hpt); exact Hg).
+  assert (walk 100 st1 o d r n = Ok (p, t, Normal k dflt)) as Hw1.
   { unfold st1. erewrite walk_dict_set_local; eauto. }
   assert (find_trait st1 o n = Some (Deleg d r true)) as Htr1 by (unfold st1; rewrite find_trait_dict_set; exact Htr).
-  destruct (walk_read_agree_local st1 o _ _ _ _ _ _ _ _ _ Hg1 Htr1 Hw1) as [_ Hread].
+  destruct (walk_read_agree_local st1 _ _ _ _ _ _ _ _ _ Hg1 Htr1 Hw1) as [_ Hread].
   intros g. rewrite Hread. apply read_local. apply dict_get_dict_set_same. exact Hp.
 Qed.
